@@ -368,6 +368,53 @@ def _allclose(a, b, rtol=1e-05, atol=1e-08, **k):
     return _np.allclose(a, b, rtol=rtol, atol=atol, **k)
 
 
+def _searchsorted(a, v, side="left", sorter=None):
+    if not (has_sym(a) or has_sym(v)):
+        return _np.searchsorted(a, v, side=side, sorter=sorter)
+    a = _objarr(a)
+    if sorter is not None:
+        a = a[sorter]
+
+    def one(x):
+        # a is sorted ascending: the insertion point is the number of elements < x (<= x)
+        k = 0
+        for e in a:
+            if bool((e < x) if side == "left" else (e <= x)):
+                k += 1
+            else:
+                break
+        return k
+    va = _objarr(v)
+    if va.ndim == 0:
+        return one(va[()])
+    return _np.array([one(x) for x in va.reshape(-1)], dtype=_np.intp).reshape(va.shape)
+
+
+def _interp(x, xp, fp, left=None, right=None, period=None):
+    if not (has_sym(x) or has_sym(xp) or has_sym(fp)):
+        return _np.interp(x, xp, fp, left=left, right=right, period=period)
+    xp, fp = list(_objarr(xp).reshape(-1)), list(_objarr(fp).reshape(-1))
+
+    def one(t):
+        if bool(t <= xp[0]) if len(xp) else True:
+            if len(xp) and left is not None and bool(t < xp[0]):
+                return left
+            return fp[0]
+        if bool(t >= xp[-1]):
+            if right is not None and bool(t > xp[-1]):
+                return right
+            return fp[-1]
+        for i in range(len(xp) - 1):
+            if bool(t < xp[i + 1]):
+                slope = (fp[i + 1] - fp[i]) / (xp[i + 1] - xp[i])
+                return fp[i] + slope * (t - xp[i])
+        return fp[-1]
+    xa = _objarr(x)
+    if xa.ndim == 0:
+        return one(xa[()])
+    return symarray([one(t) for t in xa.reshape(-1)], xa.shape)
+
+
 def _isscalar(x):
     return isinstance(x, Sym) or _np.isscalar(x)
 
@@ -405,7 +452,7 @@ OVERRIDES = {
     "zeros": _zeros, "ones": _ones, "empty": _empty, "full": _full, "zeros_like": _zeros_like, "ones_like": _like(1.0), "empty_like": _like(0.0),
     "arange": _arange, "trunc": _trunc, "floor": _floor, "nanmean": _nanmean,
     "count_nonzero": _count_nonzero, "allclose": _allclose, "isscalar": _isscalar,
-    "nanstd": _nanstd, "array": _array, "asarray": _asarray, "asanyarray": _asarray, "sqrt": _sqrt,
+    "nanstd": _nanstd, "searchsorted": _searchsorted, "interp": _interp, "array": _array, "asarray": _asarray, "asanyarray": _asarray, "sqrt": _sqrt,
     "abs": _abs, "absolute": _abs,
 }
 
